@@ -1,6 +1,23 @@
 //! `vh`: verification harness for fontc. One subcommand per module; see /verif/DESIGN.md.
 
 mod compile;
+mod varmodel;
+mod featvars;
+mod coords;
+mod feaparse;
+mod feasem;
+mod glyphset;
+mod kerning;
+mod marks;
+mod components;
+mod names;
+mod limits;
+mod routes;
+mod summary;
+mod sfnt;
+mod instancing;
+mod persist;
+mod project;
 
 use std::process::ExitCode;
 
@@ -8,6 +25,23 @@ use std::process::ExitCode;
 const MODULES: &[(&str, fn(&[String]) -> i32, &str)] = &[
     ("compile", compile::run, "compile one source (optionally traced)"),
     ("batch", compile::run_batch, "compile many sources from ndjson requests on stdin"),
+    ("varmodel", varmodel::run, "see spec/ and checks/ for the module of the same name"),
+    ("featvars", featvars::run, "see spec/ and checks/ for the module of the same name"),
+    ("coords", coords::run, "see spec/ and checks/ for the module of the same name"),
+    ("feaparse", feaparse::run, "see spec/ and checks/ for the module of the same name"),
+    ("feasem", feasem::run, "see spec/ and checks/ for the module of the same name"),
+    ("glyphset", glyphset::run, "see spec/ and checks/ for the module of the same name"),
+    ("kerning", kerning::run, "see spec/ and checks/ for the module of the same name"),
+    ("marks", marks::run, "see spec/ and checks/ for the module of the same name"),
+    ("components", components::run, "see spec/ and checks/ for the module of the same name"),
+    ("names", names::run, "see spec/ and checks/ for the module of the same name"),
+    ("limits", limits::run, "see spec/ and checks/ for the module of the same name"),
+    ("routes", routes::run, "see spec/ and checks/ for the module of the same name"),
+    ("summary", summary::run, "see spec/ and checks/ for the module of the same name"),
+    ("sfnt", sfnt::run, "see spec/ and checks/ for the module of the same name"),
+    ("instancing", instancing::run, "see spec/ and checks/ for the module of the same name"),
+    ("persist", persist::run, "see spec/ and checks/ for the module of the same name"),
+    ("project", project::run, "see spec/ and checks/ for the module of the same name"),
 ];
 
 fn main() -> ExitCode {
